@@ -53,6 +53,13 @@ theorem C12_inv (info : Nat → ClsInfo) (w : Bool) (ops : List ROp) (s : RState
   | nil => simpa [rrun] using h
   | cons op ops ih => exact ih _ _ (C12_inv_step info w s i op h)
 
+/-- The same with the warnings filter changing from call to call. -/
+theorem C12_inv_any_filter (info : Nat → ClsInfo) (ops : List (Bool × ROp)) (s : RState) (i : Nat)
+    (h : s.Inv) : (rrunW info s i ops).Inv := by
+  induction ops generalizing s i with
+  | nil => simpa [rrunW] using h
+  | cons op ops ih => exact ih _ _ (C12_inv_step info op.1 s i op.2 h)
+
 theorem engineRegister_atomic (info : Nat → ClsInfo) (w : Bool) (s : RState) (cls : Nat)
     (key : String) (rid : Nat) (e : RErr) (h : (engineRegister info w s cls key rid).2 = some e) :
     (engineRegister info w s cls key rid).1 = s := by
